@@ -102,6 +102,11 @@ Definition db_update (db : Z * Z) (idx sz : Z) : Z * Z :=
   if idx mod 2 =? 0 then (Z.max (fst db) sz, snd db) else (fst db, Z.max (snd db) sz).
 Definition db_get (db : Z * Z) (idx : Z) : Z := if idx mod 2 =? 0 then fst db else snd db.
 
+(* NpuWeightTensor.max_range_bytes() and the size scheduler.propose_weight_buffering gives a SINGLE (not double) weight
+   buffer since repo commit 375f89a: min(len(buffer), max_range_bytes()); a double buffer i has double_buffer_sizes[i] *)
+Definition max_range_bytes (db : Z * Z) : Z := Z.max (fst db) (snd db).
+Definition single_buffer_size (buflen : Z) (db : Z * Z) : Z := Z.min buflen (max_range_bytes db).
+
 Definition core_block_depth (ncores bd core : Z) : Z := (bd + ncores - 1 - core) / ncores.
 
 Section Layout.
@@ -276,12 +281,19 @@ Record request := mkQ { q_wp : wparams; q_weight_vid : Z;
                         q_scale_vid : Z; q_ifm_scale : Z; q_ofm_scale : Z;
                         q_biases : list Z; q_qscales : list (Z * Z) }.
 
-(* WeightCompressionConfig(npu_block_type, min(block depth, ofm depth), hash(str(depth_offsets)), dilation, value_id);
+(* WeightCompressionConfig(npu_block_type, min(block depth, ofm depth), hash(str(depth_offsets)), dilation, value_id,
+                           ifm_bitdepth, flipped)   [the last two fields since repo commit 845322f];
    the string hash is modelled as injective (the list itself) *)
-Definition wkey : Type := (Z * Z * list Z * (Z * Z) * Z)%type.
+Definition wkey : Type := (Z * Z * list Z * (Z * Z) * Z * Z * bool)%type.
 Definition wkey_of (q : request) : wkey :=
   let w := q_wp q in
-  (wp_block_type w, Z.min (wp_block_depth w) (wp_ofm_depth w), wp_slices w, (wp_dil_x w, wp_dil_y w), q_weight_vid q).
+  (wp_block_type w, Z.min (wp_block_depth w) (wp_ofm_depth w), wp_slices w, (wp_dil_x w, wp_dil_y w), q_weight_vid q,
+   wp_ifm_bits w, wp_flip w).
+(* the key function before 845322f (no IFM bit depth, no flip): kept for the refutation that motivated the repair *)
+Definition wkey_of_old (q : request) : wkey :=
+  let w := q_wp q in
+  (wp_block_type w, Z.min (wp_block_depth w) (wp_ofm_depth w), wp_slices w, (wp_dil_x w, wp_dil_y w), q_weight_vid q,
+   0, false).
 (* ScaleCompressionConfig(scale value_id, ifm_scale, ofm_scale) *)
 Definition skey : Type := (Z * Z * Z)%type.
 Definition skey_of (q : request) : skey := (q_scale_vid q, q_ifm_scale q, q_ofm_scale q).
@@ -293,9 +305,9 @@ Fixpoint list_eqb (a b : list Z) : bool :=
   | _, _ => false
   end.
 Definition wkey_eqb (a b : wkey) : bool :=
-  let '(a1, a2, a3, (a4, a5), a6) := a in
-  let '(b1, b2, b3, (b4, b5), b6) := b in
-  (a1 =? b1) && (a2 =? b2) && list_eqb a3 b3 && (a4 =? b4) && (a5 =? b5) && (a6 =? b6).
+  let '(a1, a2, a3, (a4, a5), a6, a7, a8) := a in
+  let '(b1, b2, b3, (b4, b5), b6, b7, b8) := b in
+  (a1 =? b1) && (a2 =? b2) && list_eqb a3 b3 && (a4 =? b4) && (a5 =? b5) && (a6 =? b6) && (a7 =? b7) && Bool.eqb a8 b8.
 Definition skey_eqb (a b : skey) : bool :=
   let '(a1, a2, a3) := a in let '(b1, b2, b3) := b in (a1 =? b1) && (a2 =? b2) && (a3 =? b3).
 
@@ -315,6 +327,8 @@ Fixpoint cache_set (c : cache) (e : centry) : cache :=
 Section Cache.
   (* the codec as a function of the true inputs of the weight stream *)
   Variable codec : wparams -> Z -> Z -> Z -> Z -> list Z.
+  (* the key function: wkey_of for the code that exists *)
+  Variable keyf : request -> wkey.
 
   Definition encode_req (q : request) (do_w : bool) : option tensor :=
     let w := q_wp q in
@@ -325,7 +339,7 @@ Section Cache.
   Definition response : Type := (tensor * option tensor)%type.
 
   Definition respond (c : cache) (q : request) : option (cache * response) :=
-    match cache_get c (wkey_of q) with
+    match cache_get c (keyf q) with
     | Some e =>
         if skey_eqb (e_scc e) (skey_of q) then Some (c, (e_tensor e, None))
         else match encode_req q false with
@@ -334,7 +348,7 @@ Section Cache.
              end
     | None =>
         match encode_req q true with
-        | Some t => Some (cache_set c (mkE (wkey_of q) t (skey_of q)), (t, None))
+        | Some t => Some (cache_set c (mkE (keyf q) t (skey_of q)), (t, None))
         | None => None
         end
     end.
